@@ -5,7 +5,7 @@ exhaustive enumeration over a small alphabet) and applied in lock step to an in-
 file-backed (shelve) Cache and a reference dict model written from the property statement, under a
 frozen clock.  Every read is compared with the model after every step.
 """
-import itertools
+import itertools, copy
 from harness.runner import Part, Violation
 from harness import clock
 
@@ -49,13 +49,21 @@ AVAS = [
 EXPIRY_OFFSETS = [-101, -1, 1, 101, 1000001]
 
 
+_SUBJ = [None]     # per-history list of POOL indices; op subject numbers index into it
+
+
+def _pi(i):
+    sub = _SUBJ[0]
+    return sub[i % len(sub)] if sub else i
+
+
 def _nid(i):
     from saml2_tophat.saml import NameID
-    return NameID(**POOL[i])
+    return NameID(**POOL[_pi(i)])
 
 
 def _key(i):
-    return tuple((POOL[i][a] or None) for a in ('name_qualifier', 'sp_name_qualifier', 'format', 'sp_provided_id', 'text'))
+    return tuple((POOL[_pi(i)][a] or None) for a in ('name_qualifier', 'sp_name_qualifier', 'format', 'sp_provided_id', 'text'))
 
 
 def _nid_key(n):
@@ -94,6 +102,7 @@ def run_history(case, backends=('mem', 'file')):
     from saml2_tophat.cache import Cache
     from saml2_tophat.population import Population
     clock.install()
+    _SUBJ[0] = case.get('subjects')
     now = BASE
     clock.set_now(now)
     caches = {}
@@ -142,11 +151,11 @@ def run_history(case, backends=('mem', 'file')):
                 subjects_touched.add(k)
                 if name == 'set':
                     def f(c, p, ni=ni, src=src, info=info, exp=exp):
-                        i2 = dict(info); i2['name_id'] = _nid(ni)
+                        i2 = copy.deepcopy(info); i2['name_id'] = _nid(ni)
                         return c.set(_nid(ni), src, i2, exp)
                 else:
                     def f(c, p, ni=ni, src=src, info=info, exp=exp):
-                        i2 = dict(info); i2['name_id'] = _nid(ni); i2['issuer'] = src
+                        i2 = copy.deepcopy(info); i2['name_id'] = _nid(ni); i2['issuer'] = src
                         p.add_information_about_person(i2)
                         return None
 
@@ -382,7 +391,8 @@ def op_strategy(npool, nsrc):
 
 def history_strategy(maxlen):
     from hypothesis import strategies as st
-    return st.fixed_dictionaries({'ops': st.lists(op_strategy(len(POOL), len(SOURCES)), min_size=1, max_size=maxlen)})
+    return st.fixed_dictionaries({'subjects': st.lists(st.integers(0, len(POOL) - 1), min_size=1, max_size=3, unique=True),
+                                  'ops': st.lists(op_strategy(3, len(SOURCES)), min_size=1, max_size=maxlen)})
 
 
 class Sequences(object):
@@ -414,6 +424,27 @@ class Sequences(object):
                 yield {'ops': list(seq)}
 
 
+class Shaped(object):
+    """every history of the shape  store, store, read, change, read  over the small alphabet."""
+    def __init__(self):
+        sets = [['set', ni, si, ai, eo] for ni in (0, 5) for si in (0, 1) for ai in (0, 1, 3) for eo in (1, 2, 3)]
+        reads = [['get_identity', ni, [], True] for ni in (0, 5)] + [['get_identity', 0, [0, 1], False]] + \
+                [['get', 0, si, chk] for si in (0, 1) for chk in (True, False)]
+        changes = [['reset', 0, 0], ['reset', 0, 1], ['delete', 0], ['delete', 5], ['advance', 2], ['advance', 102],
+                   ['set', 0, 1, 2, 1], ['set', 0, 0, 2, 3], ['set', 5, 0, 3, 3]]
+        self.dims = (sets, sets, reads, changes, reads)
+
+    def __len__(self):
+        n = 1
+        for d in self.dims:
+            n *= len(d)
+        return n
+
+    def __iter__(self):
+        for seq in itertools.product(*self.dims):
+            yield {'ops': [list(o) for o in seq]}
+
+
 def parts(tier):
     quick = tier != 'thorough'
     return [
@@ -423,4 +454,5 @@ def parts(tier):
              mandatory=()),
         Part('exhaustive', lambda c: run_history(c, ('mem',)),
              cases=lambda: Sequences(3 if quick else 4), exhaustive=True, distinct_by_construction=True),
+        Part('shaped', lambda c: run_history(c, ('mem',)), cases=lambda: Shaped(), exhaustive=True, distinct_by_construction=True),
     ]
